@@ -185,6 +185,8 @@ class _XX:
     driver = "drvxx_linepart"
     cxx = True
     fixed_lines = 1
+    # the buffers are C objects with a hand-made vtable: UBSan's C++ vptr check cannot accept them
+    link_extra = ["-fno-sanitize=vptr"]
 
     @staticmethod
     def corpus(chk):
